@@ -125,6 +125,14 @@ def render_doc(f, doc, ind):
 def render_component(f, c, files, ind="  "):
     x = f.xs_prefix
     extra = ""
+    ov = getattr(c, "prefix_override", None)
+    if ov:
+        # this component binds a prefix of the schema element anew, for itself: references to files[bind] inside it go through it
+        import copy
+        f = copy.copy(f)
+        f.prefixes = {k: p for k, p in f.prefixes.items() if k != ov["hides"]}
+        f.prefixes[ov["bind"]] = ov["as"]
+        extra += f' xmlns:{ov["as"]}={quoteattr(files[ov["bind"]].uri)}' 
     if f.nested_xmlns:
         for p, uri in sorted(_foreign_prefixes_used(f, c, files).items()):
             extra += f' xmlns:{p}={quoteattr(uri)}'
